@@ -274,6 +274,8 @@ class StmtMixin:
         if isinstance(it, (ListLoc, SeqV)):
             sv = self.as_seq(it, st)
             return ("sym", sv.n, lambda j: self.wrap_elem(sv, j))
+        if isinstance(it, Sym) and it.ty == "qset":
+            return qset_domain(self, it, st)
         if isinstance(it, Sym) and is_ref_ty(it.ty):
             m = self.models.get(f"{it.ty[1]}.__iter__")
             if m:
@@ -511,6 +513,31 @@ class IterV:
             # abstract enumeration order of the keys: bijection [0,n) -> dom
             return ml_items_domain(interp, ml, st, self.parts[1])
         raise OutOfSubset(f"iterator {self.kind}")
+
+
+def qset_domain(interp, sv, st):
+    """abstract enumeration of a set of qubit ids: a bijection [0,n) -> members (order unconstrained)."""
+    from .core import Qid
+    cached = getattr(st, "_qdoms", None)
+    if cached is None:
+        cached = st._qdoms = {}
+    key = sv.t.get_id()
+    if key in cached:
+        n, order, idx = cached[key]
+    else:
+        n = fresh("card", I)
+        order = fresh("qorder", z3.ArraySort(I, Qid))
+        idx = fresh("qidx", z3.ArraySort(Qid, I))
+        j = z3.Int("j!qo")
+        q = z3.Const("q!qo", Qid)
+        st.assume(n >= 0,
+                  z3.ForAll([j], z3.Implies(z3.And(j >= 0, j < n), z3.And(z3.Select(sv.t, z3.Select(order, j)), z3.Select(idx, z3.Select(order, j)) == j)), patterns=[z3.Select(order, j)]),
+                  z3.ForAll([q], z3.Implies(z3.Select(sv.t, q), z3.And(z3.Select(idx, q) >= 0, z3.Select(idx, q) < n, z3.Select(order, z3.Select(idx, q)) == q)), patterns=[z3.Select(idx, q)]),
+                  name="set-enumeration")
+        cached[key] = (n, order, idx)
+    st.env["__qorder__"] = Sym(order, "opaque")
+    st.env["__qidx__"] = Sym(idx, "opaque")
+    return ("sym", n, lambda jj: Sym(z3.Select(order, jj), "qid"))
 
 
 def ml_items_domain(interp, ml, st, what="items"):
